@@ -161,6 +161,60 @@ class World:
         chk.count("head_requests")
         return True
 
+    def op_request_while_rebuild_fails(self) -> bool:
+        """A request that must rebuild the listing (entry expired, or lifetime 0) while the directory cannot be read
+        (os.listdir fails with EIO for this one request): whatever the reply, it is not the expired entry."""
+        import errno
+        chk = self.chk
+        cands = [d for d in self.dirs if self.model[d].snapshot is not None and os.path.exists(self.cachepath(d))
+                 and (self.lifetime == 0 or self.model[d].age >= self.lifetime)]
+        if not cands:
+            return True
+        d = self.rng.choice(cands)
+        m = self.model[d]
+        view = self.rng.choice(VIEWS)
+        sel = b"/" + d if d else b"/"
+        current = self.render_current(d)
+        target = os.path.join(os.fsencode(self.root), d).rstrip(b"/")
+        real_listdir = os.listdir
+        hits = []
+
+        def failing(path="."):
+            p = os.fsencode(path).rstrip(b"/")
+            if p == target:
+                hits.append(1)
+                raise OSError(errno.EIO, os.strerror(errno.EIO), os.fsdecode(p))
+            return real_listdir(path)
+
+        cp = self.cachepath(d)
+        before = os.stat(cp)
+        os.listdir = failing
+        try:
+            req, tls = reqs.render(view, sel)
+            r = self.site.request(req, tls=tls)
+        finally:
+            os.listdir = real_listdir
+        got = validate.normalize_ts(r.data)
+        self.trace.append("request %s /%s while the directory cannot be read" % (view, d.decode()))
+        chk.count("requests_while_rebuild_fails")
+        if not hits:
+            chk.count("rebuild_fault_not_reached")
+            if got == m.snapshot[view] and got != current[view]:
+                chk.witness("C10/stale-entry-served", {"lifetime": self.lifetime, "view": view, "dir": sel, "age": m.age,
+                                                       "history": self.trace[-12:], "got": got[:300], "current": current[view][:300]})
+                return False
+        elif got == m.snapshot[view] and got != current[view]:
+            chk.witness("C10/expired-entry-served-when-the-rebuild-fails",
+                        {"lifetime": self.lifetime, "view": view, "dir": sel, "age": m.age, "history": self.trace[-12:],
+                         "got": got[:300], "current": current[view][:300], "log": r.log[:3]})
+            return False
+        after = os.stat(cp) if os.path.exists(cp) else None
+        if after is None:
+            m.snapshot, m.age = None, 0
+        elif (after.st_mtime_ns, after.st_size) != (before.st_mtime_ns, before.st_size):
+            m.snapshot, m.age, m.written_by = current, 0, view
+        return True
+
     def op_request(self) -> bool:
         chk = self.chk
         d = self.rng.choice(self.dirs)
@@ -295,6 +349,9 @@ def run_history(chk: Check, sc: Scratch, idx: int) -> None:
             r = w.rng.random()
             if r < 0.08:
                 if not w.op_head():
+                    return
+            elif r < 0.14:
+                if not w.op_request_while_rebuild_fails():
                     return
             elif r < 0.5:
                 if not w.op_request():
